@@ -4,7 +4,7 @@
    gp t c i p = the correction of product p for input i that data channel c receives at dump t
    (through p's channel map);  factor = what calc_correction_per_corrprod computes for one corrprod. *)
 From Coq Require Import ZArith QArith Qabs Qcanon List Bool String Permutation.
-From KV Require Import Base.Sx Gen.Generated Model.Applycal Proofs.ApplycalP Model.ApplycalSol Proofs.ApplycalSolP.
+From KV Require Import Base.Sx Gen.Generated Model.Applycal Proofs.ApplycalP Model.ApplycalSol Proofs.ApplycalSolP Proofs.ApplycalElemP.
 Import ListNotations.
 
 (* The flag raised by apply_flags_correction (constant name regenerated from applycal.py, value from flags.py). *)
@@ -280,3 +280,45 @@ Theorem C13_applied_factor : forall reqs data sel t c cp,
              (make_products data (map snd (spec_selected reqs [])))).
 Proof. exact applied_factor. Qed.
 Print Assumptions C13_applied_factor.
+
+(* ================================================================== the corrected arrays themselves
+   VisibilityDataV4._make_corrected: da.core.elemwise(kernel, stored, corrections) runs the kernel on matching
+   blocks.  For ANY chunking of time x channel and a stored array of the matching shape, every element of the
+   assembled result is kernel(stored element, factor): with C13_factor_is_product / C13_composition / C13_invalid
+   this is the first sentence of the property for vis (kernel = apply_vis), weights and flags. *)
+Theorem C13_corrected_pointwise : forall (A : Type) (kernel : A -> C -> A) (dflt : A) data prods ninputs cps tch cch,
+  shape_ok data (total tch) (total cch) (List.length cps) -> cps_ok ninputs cps ->
+  forall t c b, (t < total tch)%nat -> (c < total cch)%nat -> (b < List.length cps)%nat ->
+  nth b (nth c (nth t (assemble (corrected_block kernel data prods ninputs cps) tch cch) []) []) dflt
+  = kernel (nth b (nth c (nth t data []) []) dflt) (factor prods t c (nth b cps (0%nat, 0%nat))).
+Proof. exact @corrected_pointwise. Qed.
+Print Assumptions C13_corrected_pointwise.
+
+(* flags: nothing but the postproc bit can change, and no bit is ever cleared *)
+Theorem C13_flags_only_postproc : forall fl f n, n <> 7%Z -> Z.testbit (apply_flags fl f) n = Z.testbit fl n.
+Proof. exact apply_flags_other_bits. Qed.
+Print Assumptions C13_flags_only_postproc.
+
+Theorem C13_flags_never_cleared : forall fl f n, Z.testbit fl n = true -> Z.testbit (apply_flags fl f) n = true.
+Proof. exact apply_flags_monotone. Qed.
+Print Assumptions C13_flags_never_cleared.
+
+(* a unit factor changes neither visibility nor weight *)
+Theorem C13_unit_factor : forall d w, apply_vis d Cone = d /\ apply_weights w Cone = w.
+Proof. intros; split; [apply apply_vis_one | apply apply_weights_one]. Qed.
+Print Assumptions C13_unit_factor.
+
+(* correcting with f1 and then with f2 (numbers, non-zero) = correcting once with f1 * f2: vis, weights, flags *)
+Theorem C13_two_stage : forall d w fl a b c e,
+  norm2 a b <> 0%Qc -> norm2 c e <> 0%Qc ->
+  apply_vis (apply_vis d (CFin a b)) (CFin c e) = apply_vis d (Cmul (CFin a b) (CFin c e)) /\
+  apply_weights (apply_weights w (CFin a b)) (CFin c e) = apply_weights w (Cmul (CFin a b) (CFin c e)) /\
+  apply_flags (apply_flags fl (CFin a b)) (CFin c e) = apply_flags fl (Cmul (CFin a b) (CFin c e)).
+Proof. exact two_stage. Qed.
+Print Assumptions C13_two_stage.
+
+(* postproc raised by an invalid stage survives any later stage *)
+Theorem C13_invalid_stage_sticks : forall fl f1 f2, f1 = CNaN ->
+  Z.testbit (apply_flags (apply_flags fl f1) f2) 7 = true.
+Proof. exact invalid_stage_sticks. Qed.
+Print Assumptions C13_invalid_stage_sticks.
